@@ -11,14 +11,14 @@ from ..runner import Sub
 from .common import L, Checker, arr
 
 PROPERTY_ID = "C14"
-RULE = ("kinds: trnorm (valid SO(3)/SE(3) member + entry noise 1e-15..1e-2, or no noise; base.trnorm and SO3/SE3.norm()), "
+RULE = ("kinds: trnorm / trnorm2 (valid SO(n)/SE(n) member + entry noise 1e-15..1e-2, or no noise; base functions and SO2/SE2/SO3/SE3.norm()), "
         "unitvec (2..6-vectors, norm 1e-6..1e6), unitq (4-vectors, base.unit / Quaternion.unit / UnitQuaternion ctor), "
         "unittwist (3D and 2D twists, rotational part exactly 0, below (1e-17..1e-15) or above (>=1e-13) the zero threshold; "
         "base functions and Twist3/Twist2.unit), angdiff (angles and differences within +-1e3 incl. exact multiples of pi). "
         "Non-trivial: noise >= 1e-9, or norm outside [0.1,10], or irrotational twist, or |angle| > pi.")
 ASSUMPTIONS = ["tolerance 1e-12 throughout (absolute on unit-norm / orthonormality residuals, relative to the input magnitude for directions)",
                "angdiff congruence residual is evaluated with mpmath at 50 digits; tolerance 1e-12*max(1,|a|,|b|)",
-               "SO2/SE2.norm() is outside the domain: the package has no planar trnorm2"]
+               "planar trnorm2 / SO2.norm / SE2.norm: validity, idempotence, fixed point, translation kept and closeness to the input (the 3-D axis clauses of the statement have no planar analogue)"]
 
 TOL = 1e-12
 
@@ -29,6 +29,13 @@ def s_trnorm():
         "kind": st.just("trnorm"), "T": gens.pose3(t_hi=6), "se": st.booleans(),
         "noise": noise, "pattern": st.lists(gens.fl(-1, 1), min_size=9, max_size=9),
         "nvals": st.integers(1, 3)})
+
+
+def s_trnorm2():
+    noise = st.one_of(st.just(0.0), gens.logmag(-15, -2))
+    return st.fixed_dictionaries({
+        "kind": st.just("trnorm2"), "T": gens.pose2(t_hi=6), "se": st.booleans(),
+        "noise": noise, "pattern": st.lists(gens.fl(-1, 1), min_size=4, max_size=4), "nvals": st.integers(1, 3)})
 
 
 def s_unitvec():
@@ -64,7 +71,7 @@ def s_angdiff():
 
 
 def check_case(case):
-    return {"trnorm": _trnorm, "unitvec": _unitvec, "unitq": _unitq, "unittwist": _unittwist, "angdiff": _angdiff}[case["kind"]](case)
+    return {"trnorm": _trnorm, "trnorm2": _trnorm2, "unitvec": _unitvec, "unitq": _unitq, "unittwist": _unittwist, "angdiff": _angdiff}[case["kind"]](case)
 
 
 def _trnorm(case):
@@ -107,6 +114,43 @@ def _trnorm(case):
         okn, Y = c.lib("class/norm", X.norm)
         if okn:
             c.true("class/type", type(Y) is cls and len(Y) == k, "norm() returned %s of length %s" % (type(Y).__name__, len(Y) if hasattr(Y, "__len__") else None))
+            if type(Y) is cls and len(Y) == k:
+                for A in Y.data:
+                    c.eq("class/value", A, R1, 0)
+    return c.out
+
+
+def _trnorm2(case):
+    b = L.base
+    T = refs.pose2_of(case["T"])
+    se = case["se"]
+    M = T.copy() if se else T[:2, :2].copy()
+    M[:2, :2] += np.array(case["pattern"]).reshape(2, 2) * case["noise"]
+    c = Checker("trnorm2", noise=case["noise"], se=se)
+    ok, R1 = c.lib("call", b.trnorm2, M.copy())
+    if not ok:
+        return c.out
+    R1 = np.asarray(R1, dtype=float)
+    if not c.true("shape", R1.shape == M.shape, "shape %s" % (R1.shape,)):
+        return c.out
+    res = refs.se_residual(R1) if se else refs.so_residual(R1)
+    c.true("valid", res <= TOL, "trnorm2 output residual %.3g" % res, residual=res)
+    ok2, R2 = c.lib("call2", b.trnorm2, R1.copy())
+    if ok2:
+        c.eq("idempotent", np.asarray(R2)[:2, :2], R1[:2, :2], TOL)
+    if case["noise"] == 0.0:
+        c.eq("fixedpoint", R1[:2, :2], M[:2, :2], TOL)
+    if se:
+        c.eq("keeps_t", R1[:2, 2], M[:2, 2], 0)
+        c.eq("lastrow", R1[2, :], [0, 0, 1], 0)
+    c.true("close", float(np.max(np.abs(R1[:2, :2] - T[:2, :2]))) <= 4 * case["noise"] + 1e-12, "normalised rotation is far from the nearly valid input")
+    cls = L.SE2 if se else L.SO2
+    k = case["nvals"]
+    okc, X = c.lib("class/ctor", cls, [M.copy() for _ in range(k)], check=False)
+    if okc:
+        okn, Y = c.lib("class/norm", X.norm)
+        if okn:
+            c.true("class/type", type(Y) is cls and len(Y) == k, "norm() returned %s" % type(Y).__name__)
             if type(Y) is cls and len(Y) == k:
                 for A in Y.data:
                     c.eq("class/value", A, R1, 0)
@@ -265,7 +309,7 @@ def _angdiff(case):
 def classify(case):
     k = case["kind"]
     lab = {"kind:" + k: True}
-    if k == "trnorm":
+    if k in ("trnorm", "trnorm2"):
         lab["nontrivial"] = case["noise"] >= 1e-9
         lab["valid_input"] = case["noise"] == 0.0
         lab["multi"] = case["nvals"] > 1
@@ -284,6 +328,7 @@ def classify(case):
 def subchecks(tier):
     return [
         Sub("trnorm", strategy=s_trnorm(), n=(600, 15000), shards=(4, 16)),
+        Sub("trnorm2", strategy=s_trnorm2(), n=(400, 10000), shards=(2, 8)),
         Sub("unitvec", strategy=s_unitvec(), n=(800, 15000), shards=(2, 8)),
         Sub("unitq", strategy=s_unitq(), n=(600, 15000), shards=(3, 8)),
         Sub("unittwist", strategy=s_unittwist(), n=(800, 15000), shards=(4, 16)),
